@@ -241,6 +241,8 @@ package writer
 // earlier pass can survive) and is renamed over segmeta.json itself.
 //@ func removeSegmetas
 //@   props C14
+//@   site call json.Unmarshal #1:
+//@     assert [each-line-is-decoded-into-an-empty-entry] isdyn(arg1, *structs.SegMeta) && emptySegMeta(arg1.(*structs.SegMeta))
 //@   site call append #1:
 //@     assert [survivor-of-other-index] segMetaData.VirtualTableName != indexName
 //@   site call append #2:
@@ -466,4 +468,52 @@ package writer
 //@   props C15 C16
 //@   pure
 //@   ensures samebase(result, ple.rawJson) && len(result) == len(ple.rawJson)
+//@ end
+
+// C14 (retention works on exactly the segments segmeta.json lists, each with
+// its own organisation, times and sizes): every numeric field of a segmeta
+// line is written with `omitempty`, and json.Unmarshal leaves a field that is
+// absent from the line untouched — so each line has to be decoded into an EMPTY
+// entry, or an absent field (organisation 0, zero counts) silently inherits the
+// previous line's value.  Same rule where removeSegmetas re-reads the file.
+//@ spec emptySegMeta(m *structs.SegMeta) bool = m != nil && m.SegmentKey == "" && m.EarliestEpochMS == 0 && m.LatestEpochMS == 0 && m.SegbaseDir == "" && m.VirtualTableName == "" && m.RecordCount == 0 && m.BytesReceivedCount == 0 && m.OnDiskBytes == 0 && m.NumBlocks == 0 && m.OrgId == 0
+//@ func readSegMetaEntries
+//@   props C14 C13
+//@   assumecalleerequires
+//@   site call json.Unmarshal #1:
+//@     assert [each-line-is-decoded-into-an-empty-entry] isdyn(arg1, *structs.SegMeta) && emptySegMeta(arg1.(*structs.SegMeta))
+//@ end
+
+// C03 (bloom micro-indexes may only skip work): a case-insensitive query for a
+// whole value looks the LOWER-CASED WHOLE value up in the block's bloom (and
+// the text as typed).  So for a value that has an upper-case letter, the bloom
+// must receive the whole value as stored and the whole value lower-cased — the
+// whole value, not the tail the sub-word loop has advanced to.
+//@ func addToBlockBloomBothCasesWithBuf
+//@   props C03
+//@   assumecalleerequires
+//@   site call blockBloom.TestAndAdd #1:
+//@     assert [whole-value-added-as-stored] samebase(arg1, fullWord) && len(arg1) == len(fullWord)
+//@   site call utils.BytesToLower #3:
+//@     assert [whole-value-lower-cased-for-the-bloom] samebase(arg0, fullWord) && len(arg0) == len(fullWord)
+//@ end
+
+// C01 (every accepted event is returned, with its own timestamp): record
+// numbers, the block's record count and the timestamp index are 16 bits wide
+// and a block's column buffers have a fixed size, so EVERY event — also the
+// second and later ones of a batch — is added either to a block that was just
+// checked to have room (fewer than MAX_RECS_PER_WIP records and space for one
+// more record of maximal size) or to the block that the flush on this very
+// iteration has just emptied.  Ghost wipFlushedNow: the flush ran in this
+// iteration.
+//@ ghostdecl wipFlushedNow int
+//@ func (*SegStore).AddEntry
+//@   props C01
+//@   assumecalleerequires
+//@   ghostinit ghost(0, "wipFlushedNow") == 0
+//@   site callret segstore.AppendWipToSegfile #1:
+//@     ghostset ghost(0, "wipFlushedNow") = 1
+//@   site call segstore.doLogEventFilling #1:
+//@     assert [each-event-goes-into-a-block-with-room-or-one-just-flushed] ghost(0, "wipFlushedNow") == 1 || (segstore.wipBlock.blockSummary.RecCount < MAX_RECS_PER_WIP && segstore.wipBlock.maxIdx + MAX_RECORD_SIZE < WIP_SIZE)
+//@     ghostset ghost(0, "wipFlushedNow") = 0
 //@ end
